@@ -1809,6 +1809,7 @@ public:
   {
     std::sort(v1.begin(), v1.end());
     std::sort(v2.begin(), v2.end());
+    if (v1.size() == 0) return v2.size() == 0;
     size_t j = 0;
     for (size_t i = 0; i < v2.size(); i++)
     {
